@@ -295,7 +295,7 @@ theorem hlg_log_branch (x' : Nat) (X : ℝ) (hxf : Finite x') (hxv : toReal x' =
     refine le_trans hre ?_; rw [hu']; linarith
   exact hlg_log_real X (toReal HA) (toReal HB) (toReal HC) wv lv _ hX0 hX1 va' vb' vc' hw6 hle hr6
 
-theorem hlg_to_gamma : CurveWithinF (arib_b67_oetf B) hlgSpec := by
+theorem hlg_to_gamma_b : CurveWithinB (arib_b67_oetf B) hlgSpec (1 / 10 ^ 5) := by
   obtain ⟨z1, z2, t1, t2, t3, m1, m2, _, _, _, _, _, _, _, _, _⟩ := cert_hlg_g
   intro x hxw hx h0 h1
   obtain ⟨fz, vz⟩ := zero_of _ z1 z2
@@ -317,13 +317,13 @@ theorem hlg_to_gamma : CurveWithinF (arib_b67_oetf B) hlgSpec := by
     refine ⟨_, rfl, hsf, ?_⟩
     unfold hlgSpec
     by_cases hs : X ≤ 1 / 12
-    · rw [if_pos hs]; refine lt_of_le_of_lt hse ?_; norm_num
+    · rw [if_pos hs]; refine le_trans hse ?_; norm_num
     · rw [if_neg hs]
       have hj := hlg_junction X (not_le.mp hs) (by linarith)
       have e : toReal (F32.sqrt (mul C.arib_b67_oetf_f3 x')) - (0.17883277 * Real.log (12 * X - 0.28466892) + 0.55991073)
           = (toReal (F32.sqrt (mul C.arib_b67_oetf_f3 x')) - Real.sqrt (3 * X)) + (Real.sqrt (3 * X) - (0.17883277 * Real.log (12 * X - 0.28466892) + 0.55991073)) := by ring
       rw [e]
-      refine lt_of_le_of_lt (abs_add_le _ _) ?_
+      refine le_trans (abs_add_le _ _) ?_
       linarith
   · rw [if_neg hle]
     have hXgt : toReal (div C.arib_b67_oetf_f1 C.arib_b67_oetf_f2) < X := by
@@ -333,7 +333,12 @@ theorem hlg_to_gamma : CurveWithinF (arib_b67_oetf B) hlgSpec := by
     refine ⟨_, rfl, hrf, ?_⟩
     unfold hlgSpec
     rw [if_neg (by linarith)]
-    refine lt_of_le_of_lt hre ?_; norm_num
+    exact hre
+
+theorem hlg_to_gamma : CurveWithinF (arib_b67_oetf B) hlgSpec := by
+  intro x hxw hx h0 h1
+  obtain ⟨r, h2, h3, h4⟩ := hlg_to_gamma_b B hL x hxw hx h0 h1
+  exact ⟨r, h2, h3, lt_of_le_of_lt h4 (by norm_num)⟩
 
 /-- **C03, HLG linear -> gamma through the dispatch** (under the libm hypothesis) -/
 theorem hlg_to_gamma_curve : ∃ g, toGammaFn B .HybridLogGamma = .ok g ∧ CurveWithinF g hlgSpec :=
